@@ -668,9 +668,18 @@ static int cif_value_clone_table(struct table_value_s *value, struct table_value
 
                     new_value->kind = CIF_UNK_KIND;
                     if (cif_value_clone(&(entry->as_value), &new_value) == CIF_OK) {
-/* All uthash fatal errors arise from memory allocation failure */
+/*
+ * All uthash fatal errors arise from memory allocation failure.  When it is the enlargement of the bucket array that
+ * fails, the new entry has already been added to the (still consistent) table, and must be taken out again before
+ * it is released.
+ */
 #undef uthash_fatal
-#define uthash_fatal(msg) FAIL(hash, CIF_MEMORY_ERROR)
+#define uthash_fatal(msg) do { \
+    if (temp.map.head != new_entry) { \
+        HASH_DEL(temp.map.head, new_entry); \
+    } \
+    FAIL(hash, CIF_MEMORY_ERROR); \
+} while (0)
                         HASH_ADD_KEYPTR(hh, temp.map.head, new_entry->key, U_BYTES(new_entry->key), new_entry);
                         continue;
                     }
@@ -837,8 +846,14 @@ static int cif_table_deserialize(struct table_value_s *table, read_buffer_tp *bu
                     DESERIALIZE(struct entry_s, entry, buf, value);
                     entry->key = key;
                     entry->key_orig = ((key_orig == NULL) ? key : key_orig);
+/* if it is the enlargement of the bucket array that fails then the entry is already in the table: take it out again */
 #undef  uthash_fatal
-#define uthash_fatal(msg) DEFAULT_FAIL(hash)
+#define uthash_fatal(msg) do { \
+    if (temp.as_table.map.head != entry) { \
+        HASH_DEL(temp.as_table.map.head, entry); \
+    } \
+    DEFAULT_FAIL(hash); \
+} while (0)
                     HASH_ADD_KEYPTR(hh, temp.as_table.map.head, entry->key, U_BYTES(entry->key), entry);
                     break;
                 default:
